@@ -37,6 +37,7 @@ HEAD = ("from Reduino.Actuators import Led, RGBLed, Servo, DCMotor\nfrom Reduino
 class M:
     def __init__(self, draw, clamp=False):
         self.draw, self.clamp = draw, clamp
+        self.floats = draw(st.integers(0, 2)) == 0   # this history passes float-typed run-time values where whole numbers are usual
         self.lines = []
         self.devs = {}
         self.reads = 0
@@ -54,6 +55,9 @@ class M:
         if self.clamp and self.draw(st.booleans()):
             self.lines.append(f"{v} = analog_read(\"A2\") * 3 - 1500")
             return f"__CL({v};{lo};{hi})__" if kind == "int" else f"__CL({v};-1.0;1.0)__"
+        elif kind == "int" and self.floats and self.draw(st.integers(0, 2)) == 0:
+            # a float-typed run-time value in [lo, hi] with a fractional part (multiples of 0.25): the host truncates / scales it as documented
+            self.lines.append(f"{v} = {lo} + (analog_read(\"A2\") % {4 * span - 3}) * 0.25")
         elif kind == "int":
             self.lines.append(f"{v} = {lo} + analog_read(\"A2\") % {span}")
         else:  # speed in [-1, 1] as multiple of 0.01
